@@ -104,6 +104,12 @@ def is_known(payload, known):
 
 def replay(payload):
     case = payload.get("case")
+    if payload.get("kind") == "implementation-raised" and case:
+        try:
+            S.rebuild(case)
+            return False
+        except Exception:
+            return True
     if case:
         inp, dump, meta, func = S.rebuild(case)
         for d in S.check_tables(meta["cls"], func):
